@@ -387,6 +387,14 @@ Proof.
   apply lbeq_false. intro E. apply G. rewrite E. reflexivity.
 Qed.
 
+(* the `.unwrap()`s on the rule builder in request_name_with_flags never fire *)
+Theorem request_never_panics st n flags ans : ro_result (request st n flags ans) <> RPanic.
+Proof.
+  unfold request. destruct (st n) as [[m|a k]|]; try discriminate.
+  rewrite !monitor_rule_ok. destruct ans as [c|]; [|discriminate].
+  destruct (decode_rq c) as [[| | |]|]; discriminate.
+Qed.
+
 (* ------------------------------------------------------------------ the full statement and its refutation *)
 Definition full_statement : Prop :=
   forall h, well_scripted h -> forall n, view (final h) n = verdict_of (transcript h) n.
@@ -422,6 +430,14 @@ Proof.
   intro F. destruct lost_unmonitored_refuted as (W & _ & V1 & V2).
   specialize (F w_lost W nA). rewrite V1, V2 in F. discriminate.
 Qed.
+
+(* the same NameLost, about a name held with a lost-monitor: forged -> nothing, genuine -> the name is gone *)
+Example forged_vs_genuine :
+  let st := upd no_names nA (Some (Owner true)) in
+  on_signal st (fsig false nA) nA = Some (Owner true) /\
+  on_signal st {| s_sender := None; s_acquired := false; s_name := nA |} nA = Some (Owner true) /\
+  on_signal st (gsig false nA) nA = None.
+Proof. vm_compute. auto. Qed.
 
 (* ------------------------------------------------------------------ non-vacuity: a history with every kind of step,
    both names, forged signals, replacement and re-acquisition from the queue, outside the known classes *)
